@@ -24,7 +24,8 @@ from pv import c19seeds as S
 
 PROP = "C19"
 VERIF = runner.VERIF
-ALLOC_CAP_MB = 16
+ALLOC_CAP_MB = 16          # enum_open / replays
+FUZZ_ALLOC_CAP_MB = 64     # fuzz_open: libFuzzer itself allocates a 20 MiB table at start-up
 # MPI-IO component: OpenMPI's default (ompio).  The pool of the other checks uses romio321 because of an ompio defect with
 # overlapping *collective* reads; part A only issues independent single-process reads, and ROMIO costs 4x more system time
 # per open (measured 3.2 ms vs 0.7 ms per input), which the exhaustive enumeration cannot afford in the quick tier.
@@ -38,8 +39,9 @@ RULE = ("Part A. enum_open: for each of the cdfspec-encoded seed files (CDF-1/2/
         "parser reaches hdr_get_NC_dimarray; distinct = distinct 64-bit FNV-1a hash of the input bytes, united over all "
         "processes of the run.")
 ASSUMPTIONS = ["single process (MPI singleton, MPI_COMM_SELF), local tmpfs/POSIX file, OpenMPI 4.1.4 with its default MPI-IO component ompio (C19_MPI_IO=romio321 selects ROMIO)",
-               "allocations above %d MiB fail in the harness (ASAN max_allocation_size_mb, allocator_may_return_null=1); the "
-               "request is booked by the library's malloc trace, so it is judged by the heap bound" % ALLOC_CAP_MB,
+               "allocations above %d MiB (enumeration, replays) / %d MiB (fuzzer) fail in the harness (ASAN max_allocation_size_mb, "
+               "allocator_may_return_null=1); the request is booked by the library's malloc trace, so it is judged by the heap bound"
+               % (ALLOC_CAP_MB, FUZZ_ALLOC_CAP_MB),
                "'time related to the size of the file' is replaced by deterministic counters (header fetches, traced heap); pure "
                "CPU blow-ups without I/O or allocation are not detected (DESIGN.md section 5)",
                "UBSan reports each source location once per process; counts of UB hits are lower bounds, distinct sites are exact",
@@ -52,14 +54,15 @@ ASSUMPTIONS = ["single process (MPI singleton, MPI_COMM_SELF), local tmpfs/POSIX
 #   allow : failure keys the target counts instead of reporting (PNC_OPEN_ALLOW); used where the process survives
 #   skip  : input classes that are not given to the library at all (PNC_OPEN_SKIP, see open_target.h); used where the
 #           finding ends the process (crash), so counting is not possible
+#   allow_ub : UBSan sites given as (kind, file, statement text); resolved to the line numbers of the CURRENT tree at run
+#           time (resolve_ub_sites), so unrelated edits that shift lines neither hide nor resurrect them
 EXCLUSIONS = {
     # R1: list nelems / attribute nelems / var ndims are used as allocation sizes and loop bounds without relating them to the
     #     file size; hdr_fetch zero-fills past EOF instead of failing (60-byte file -> GiB allocations, thousands of fetches);
-    #     PNETCDF_RNDUP(ndefined, PNC_ARRAY_GROWBY) overflows int for ndefined > INT_MAX-63
-    "count_fields_trusted": {"allow": ["resource:heap", "resource:header_reads",
-                                       "ub:signed-integer-overflow at ncmpio_header_get.c:762",
-                                       "ub:signed-integer-overflow at ncmpio_header_get.c:1007",
-                                       "ub:signed-integer-overflow at ncmpio_header_get.c:1253"]},
+    #     PNETCDF_RNDUP(ndefined, PNC_ARRAY_GROWBY) overflows int for ndefined > INT_MAX-63.
+    #     The resource excess is excused only as far as the count fields of the same input declare it (open_target.h).
+    "count_fields_trusted": {"excuse_declared": True,
+                             "allow_ub": [("signed-integer-overflow", "ncmpio_header_get.c", "alloc_size = PNETCDF_RNDUP(ncap->ndefined, PNC_ARRAY_GROWBY);")]},
     # R1b: ncmpio_new_NC_var() does not check its NCI_Calloc(ndims, ..) results -> NULL store in hdr_get_NC_var
     "var_ndims_alloc_unchecked": {"skip": {"ndims": (1 << 20) + 1}},
     # R2: CDF-5 attribute nelems >= 2^60: nelems*xsz overflows (or is negative) in x_len_NC_attrV / hdr_get_NC_attrV ->
@@ -70,13 +73,40 @@ EXCLUSIONS = {
     "int64_fields_negative": {"skip": {"neg64": 1}},
     # R4: sizes / offsets derived from (positive) extreme dimension lengths, numrecs and begins are computed with signed
     #     64-bit arithmetic before / without a range check
-    "size_offset_arith_overflow": {"allow": ["ub:signed-integer-overflow at ncmpio_var.c:324",
-                                             "ub:signed-integer-overflow at ncmpio_header_get.c:64",
-                                             "ub:signed-integer-overflow at ncmpio_enddef.c:980",
-                                             "ub:signed-integer-overflow at ncmpio_util.c:304",
-                                             "ub:signed-integer-overflow at ncmpio_util.c:314"]},
+    "size_offset_arith_overflow": {"allow_ub": [
+        ("signed-integer-overflow", "ncmpio_var.c", "product *= varp->shape[i];"),
+        ("signed-integer-overflow", "ncmpio_header_get.c", "+ ncp->vars.value[i]->len;"),
+        ("signed-integer-overflow", "ncmpio_enddef.c", "prev_off = varp->begin + varp->len;"),
+        ("signed-integer-overflow", "ncmpio_util.c", "*offset += start[0] * ncp->recsize;"),
+        ("signed-integer-overflow", "ncmpio_util.c", "*offset += varp->begin;")]},
 }
 ACTIVE_EXCLUSIONS = sorted(EXCLUSIONS)
+
+
+_UB_CACHE = {}
+
+
+def resolve_ub_sites(sites):
+    """(kind, file, statement text) -> allow keys 'ub:<kind> at <file>:<line>' for every line of the current tree's
+    <file> that contains the statement text (sources of VERIF_REPO; m4 products are looked up in the build's gen/ dir)"""
+    repo = os.environ.get("VERIF_REPO", "/repo")
+    keys = []
+    for kind, fn, text in sites:
+        ck = (repo, fn)
+        if ck not in _UB_CACHE:
+            cands = glob.glob(os.path.join(repo, "src", "**", fn), recursive=True)
+            cands = [c for c in cands if not os.path.exists(c[:-2] + ".m4")]      # in-tree .c next to its .m4 is a stale product
+            if not cands:
+                for b in _BUILD_DIRS:
+                    cands += glob.glob(os.path.join(b, "gen", fn))
+            _UB_CACHE[ck] = open(cands[0], errors="replace").read().splitlines() if cands else []
+        for i, line in enumerate(_UB_CACHE[ck], 1):
+            if text in line:
+                keys.append("ub:%s at %s:%d" % (kind, fn, i))
+    return keys
+
+
+_BUILD_DIRS = []
 
 
 def scratch_root():
@@ -84,24 +114,26 @@ def scratch_root():
     return tempfile.mkdtemp(prefix="pnc19.%d." % os.getpid(), dir=base)
 
 
-def target_env(tmpdir, exclusions=()):
+def target_env(tmpdir, exclusions=(), cap_mb=ALLOC_CAP_MB):
     env = dict(os.environ)
     env.update({
         "OMPI_ALLOW_RUN_AS_ROOT": "1", "OMPI_ALLOW_RUN_AS_ROOT_CONFIRM": "1", "OMPI_MCA_io": MPI_IO,
         "OMPI_MCA_btl": "self", "OMPI_MCA_mpi_yield_when_idle": "1",
         "ASAN_OPTIONS": "detect_leaks=0:allocator_may_return_null=1:max_allocation_size_mb=%d:exitcode=87:abort_on_error=0:"
-                        "detect_stack_use_after_return=0:print_summary=1" % ALLOC_CAP_MB,
+                        "detect_stack_use_after_return=0:print_summary=1" % cap_mb,
         "UBSAN_OPTIONS": "print_stacktrace=1:halt_on_error=0",
-        "PNC_ALLOC_CAP_MB": str(ALLOC_CAP_MB), "TMPDIR": tmpdir,
+        "PNC_ALLOC_CAP_MB": str(cap_mb), "TMPDIR": tmpdir,
     })
     for k in ("PNETCDF_HINTS", "PNETCDF_SAFE_MODE", "PNETCDF_VERBOSE_DEBUG_MODE", "PNC_OPEN_ALLOW", "PNC_OPEN_SKIP",
-              "PNC_OPEN_STATS", "PNC_OPEN_HASHES", "PNC_ENUM_HDR"):
+              "PNC_OPEN_STATS", "PNC_OPEN_HASHES", "PNC_ENUM_HDR", "PNC_OPEN_EXCUSE_DECLARED"):
         env.pop(k, None)
     allow, skip = [], {}
     for name in exclusions:
         e = EXCLUSIONS[name]
-        allow += e.get("allow", [])
+        allow += e.get("allow", []) + resolve_ub_sites(e.get("allow_ub", []))
         skip.update(e.get("skip", {}))
+        if e.get("excuse_declared"):
+            env["PNC_OPEN_EXCUSE_DECLARED"] = "1"
     if allow:
         env["PNC_OPEN_ALLOW"] = ",".join(allow)
     if skip:
@@ -196,22 +228,44 @@ def run_case(ctx, case):
 
 
 # ------------------------------------------------------------------------------ enumeration
-def run_enum(build_asan, name, seedpath, root, exclusions):
-    """exhaustive enumeration of one seed, restarting after sanitizer crashes; returns a dict"""
-    tmpdir = os.path.join(root, "t_" + name)
-    outdir = os.path.join(root, "o_" + name)
+ENUM_CHUNK = 2500
+
+
+def enum_domain(build_asan, seedpath, root):
+    """size of the enumeration domain of a seed (dry run: --stop 0 walks the order without running an input)"""
+    tmpdir = tempfile.mkdtemp(prefix="probe.", dir=root)
+    try:
+        r = subprocess.run([os.path.join(build_asan, "enum_open"), seedpath, tmpdir, "all", "--stop", "0"], env=target_env(tmpdir),
+                           stdout=subprocess.PIPE, stderr=subprocess.PIPE, timeout=120)
+        for line in reversed(r.stdout.decode(errors="replace").strip().splitlines()):
+            if line.startswith("{\"tried\""):
+                d = json.loads(line)
+                return int(d["domain"]), int(d["hdr_region"])
+    except Exception:
+        pass
+    finally:
+        shutil.rmtree(tmpdir, ignore_errors=True)
+    return None, None
+
+
+def run_enum(build_asan, name, seedpath, root, exclusions, start=0, stop=None, tag=""):
+    """enumeration of the index range [start, stop) of one seed, restarting after sanitizer crashes; returns a dict"""
+    tmpdir = os.path.join(root, "t_" + name + tag)
+    outdir = os.path.join(root, "o_" + name + tag)
     os.makedirs(tmpdir, exist_ok=True)
     os.makedirs(outdir, exist_ok=True)
     env = target_env(tmpdir, exclusions)
-    env["PNC_OPEN_HASHES"] = os.path.join(root, "hashes_%s.bin" % name)
+    env["PNC_OPEN_HASHES"] = os.path.join(root, "hashes_%s%s.bin" % (name, tag))
     tot = collections.Counter()
     errors = collections.Counter()
     keys, crashes, samples, notes = {}, [], [], []
-    start, complete, domain = 0, False, None
+    first, complete, domain = start, False, None
     t0 = time.time()
     for attempt in range(60):
-        r = subprocess.run([os.path.join(build_asan, "enum_open"), seedpath, outdir, "all", "--start", str(start)], env=env,
-                           stdout=subprocess.PIPE, stderr=subprocess.PIPE)
+        cmd = [os.path.join(build_asan, "enum_open"), seedpath, outdir, "all", "--start", str(start)]
+        if stop is not None:
+            cmd += ["--stop", str(stop)]
+        r = subprocess.run(cmd, env=env, stdout=subprocess.PIPE, stderr=subprocess.PIPE)
         out, err = r.stdout.decode(errors="replace"), r.stderr.decode(errors="replace")
         summ = None
         for line in reversed(out.strip().splitlines()):
@@ -222,7 +276,7 @@ def run_enum(build_asan, name, seedpath, root, exclusions):
                     pass
                 break
         if summ is None:
-            notes.append("enum %s: no summary (rc %s): %s" % (name, r.returncode, err[-400:]))
+            notes.append("enum %s%s: no summary (rc %s): %s" % (name, tag, r.returncode, err[-400:]))
             break
         for k in ("tried", "open_ok", "open_warn", "open_err", "past_magic", "byname_miss", "reads_ok", "reads_err", "reads_skipped",
                   "vars_seen", "atts_seen", "dims_seen", "allowed", "skipped_ndims", "skipped_att_nelems", "skipped_neg64", "inputs_done"):
@@ -253,15 +307,14 @@ def run_enum(build_asan, name, seedpath, root, exclusions):
         domain = summ["domain"]
         break
     else:
-        notes.append("enum %s: more than 60 crashing inputs, enumeration abandoned at index %d" % (name, start))
+        notes.append("enum %s%s: more than 60 crashing inputs, enumeration abandoned at index %d" % (name, tag, start))
     shutil.rmtree(tmpdir, ignore_errors=True)
+    shutil.rmtree(outdir, ignore_errors=True)
     tot["skipped"] = tot["skipped_ndims"] + tot["skipped_att_nelems"] + tot["skipped_neg64"]
     visited = tot["inputs_done"] + tot["crash_inputs"]          # positions of the enumeration order that were reached
+    want = None if domain is None else (min(stop, domain) if stop is not None else domain) - first
     return {"name": name, "tot": dict(tot), "errors": dict(errors), "keys": keys, "crashes": crashes, "samples": samples, "notes": notes,
-            "complete": complete, "domain": domain, "visited": visited,
-            "exhaustive_modulo_exclusions": bool(complete and domain is not None and visited == domain),
-            "exhaustive": bool(complete and domain is not None and visited == domain and tot["skipped"] == 0),
-            "wall": time.time() - t0}
+            "complete": bool(complete and want is not None and visited == want), "domain": domain, "visited": visited, "wall": time.time() - t0}
 
 
 # ------------------------------------------------------------------------------ fuzzing
@@ -270,7 +323,7 @@ def fuzz_worker(i, build_fuzz, seeds_dir, dict_path, root, runs, max_time, seed,
     corpus, art, tmpdir = os.path.join(wdir, "corpus"), os.path.join(wdir, "art"), os.path.join(wdir, "tmp")
     for d in (corpus, art, tmpdir):
         os.makedirs(d, exist_ok=True)
-    env = target_env(tmpdir, exclusions)
+    env = target_env(tmpdir, exclusions, FUZZ_ALLOC_CAP_MB)
     env["PNC_OPEN_STATS"] = os.path.join(wdir, "stats.json")
     env["PNC_OPEN_HASHES"] = os.path.join(root, "hashes_fz%d.bin" % i)
     res = {"execs": 0, "artifacts": [], "notes": [], "budget_hit": False, "stats": collections.Counter(), "errors": collections.Counter(),
@@ -332,7 +385,7 @@ def minimise(build_fuzz, build_asan, data, exclusions, want_sigs, root):
     wdir = tempfile.mkdtemp(prefix="min.", dir=root)
     src = os.path.join(wdir, "in.bin")
     open(src, "wb").write(data)
-    env = target_env(wdir, exclusions)
+    env = target_env(wdir, exclusions, FUZZ_ALLOC_CAP_MB)
     try:
         subprocess.run([os.path.join(build_fuzz, "fuzz_open"), "-minimize_crash=1", "-runs=4000", "-max_total_time=25", "-detect_leaks=0",
                         "-artifact_prefix=" + wdir + "/", "-exact_artifact_path=" + os.path.join(wdir, "min.bin"), src],
@@ -435,6 +488,7 @@ def main():
             print("BUILD-FAILED variant=%s: /repo does not build; no verdict" % v)
             sys.exit(2)
         builds[v] = b
+        _BUILD_DIRS.append(b)
     ctx = CtxLike(a.tier, a.seed, builds)
 
     # ---- replay mode
@@ -544,13 +598,13 @@ def main():
 
 
 def campaign(ctx, a, builds, root, exclusions, notes):
-    """enumeration of every seed + fuzzing, in parallel; returns (coverage dict, findings)"""
+    """enumeration of every seed (in index chunks) + fuzzing, in parallel; returns (coverage dict, findings)"""
     tier = a.tier
     seeds_dir = os.path.join(root, "seeds")
     fseeds_dir = os.path.join(root, "fseeds")
     os.makedirs(seeds_dir)
     os.makedirs(fseeds_dir)
-    eseeds = S.enum_seeds()
+    eseeds = S.enum_seeds(tier)
     for k, b in eseeds.items():
         open(os.path.join(seeds_dir, k + ".nc"), "wb").write(b)
     for k, b in S.fuzz_seeds().items():
@@ -559,12 +613,22 @@ def campaign(ctx, a, builds, root, exclusions, notes):
     open(dict_path, "w").write(S.fuzz_dictionary())
 
     nfz = 0 if a.no_fuzz else {"quick": 4, "thorough": 8}[tier]
-    runs = {"quick": 60000, "thorough": 40000000}[tier]
+    runs = {"quick": 10000, "thorough": 40000000}[tier]        # per fuzz worker
     max_time = {"quick": 75, "thorough": 900}[tier]
-    order = sorted(eseeds, key=lambda k: -len(eseeds[k]))       # longest enumeration first
-    with ThreadPoolExecutor(max_workers=max(1, min(a.workers, 16)) + nfz) as ex:
+    nw = max(1, min(a.workers, 16))
+    with ThreadPoolExecutor(max_workers=nw + nfz) as ex:
         ffut = [ex.submit(fuzz_worker, i, builds["fuzz"], fseeds_dir, dict_path, root, runs, max_time, a.seed, exclusions) for i in range(nfz)]
-        efut = [ex.submit(run_enum, builds["asan"], k, os.path.join(seeds_dir, k + ".nc"), root, exclusions) for k in order]
+        doms = dict(zip(eseeds, ex.map(lambda k: enum_domain(builds["asan"], os.path.join(seeds_dir, k + ".nc"), root), list(eseeds))))
+        tasks = []
+        for k in sorted(eseeds, key=lambda k: -(doms[k][0] or 0)):
+            dom = doms[k][0]
+            if dom is None:
+                notes.append("enum %s: domain probe failed; enumerated in one piece" % k)
+                tasks.append((k, 0, None, ""))
+                continue
+            for c, st in enumerate(range(0, dom, ENUM_CHUNK)):
+                tasks.append((k, st, min(st + ENUM_CHUNK, dom), ".%d" % c))
+        efut = [ex.submit(run_enum, builds["asan"], k, os.path.join(seeds_dir, k + ".nc"), root, exclusions, st, sp, tag) for k, st, sp, tag in tasks]
         eres = [f.result() for f in efut]
         fres = [f.result() for f in ffut]
 
@@ -574,25 +638,37 @@ def campaign(ctx, a, builds, root, exclusions, notes):
     per_seed = {}
     samples = []
     evaluations = excluded = 0
+    fmaps = {}
+    for k in eseeds:
+        try:
+            fmaps[k] = S.field_map(eseeds[k])
+        except Exception:
+            fmaps[k] = None
+        per_seed[k] = {"bytes": len(eseeds[k]), "header_region": doms[k][1], "domain": doms[k][0], "visited": 0, "evaluated": 0, "chunks": 0,
+                       "chunks_complete": 0, "open_ok": 0, "rejected": 0, "past_magic": 0, "skipped_excluded": 0, "crash_inputs": 0, "cpu_wall_s": 0.0}
     for r in eres:
         t = r["tot"]
+        ps = per_seed[r["name"]]
         evaluations += t.get("tried", 0)
         excluded += t.get("allowed", 0) + t.get("skipped", 0)
         for k in ("skipped_ndims", "skipped_att_nelems", "skipped_neg64"):
             classes["excluded_enum_" + k] += t.get(k, 0)
         errors.update(r["errors"])
         notes += r["notes"]
-        per_seed[r["name"]] = {"bytes": len(eseeds[r["name"]]), "domain": r["domain"], "evaluated": t.get("tried", 0),
-                               "exhaustive": r["exhaustive"], "exhaustive_modulo_exclusions": r["exhaustive_modulo_exclusions"], "open_ok": t.get("open_ok", 0), "rejected": t.get("open_err", 0),
-                               "past_magic": t.get("past_magic", 0), "skipped_excluded": t.get("skipped", 0), "wall_s": round(r["wall"], 1)}
+        ps["visited"] += r["visited"]
+        ps["evaluated"] += t.get("tried", 0)
+        ps["chunks"] += 1
+        ps["chunks_complete"] += 1 if r["complete"] else 0
+        ps["open_ok"] += t.get("open_ok", 0)
+        ps["rejected"] += t.get("open_err", 0)
+        ps["past_magic"] += t.get("past_magic", 0)
+        ps["skipped_excluded"] += t.get("skipped", 0)
+        ps["crash_inputs"] += t.get("crash_inputs", 0)
+        ps["cpu_wall_s"] = round(ps["cpu_wall_s"] + r["wall"], 1)
         for k in ("open_ok", "open_warn", "open_err", "reads_ok", "reads_err", "reads_skipped", "byname_miss", "vars_seen", "atts_seen", "dims_seen"):
             classes["enum_" + k] += t.get(k, 0)
         classes["enum_max_open_reads"] = max(classes["enum_max_open_reads"], t.get("max_open_reads", 0))
-        fmap = None
-        try:
-            fmap = S.field_map(eseeds[r["name"]])
-        except Exception:
-            pass
+        fmap = fmaps[r["name"]]
         for (key, allowed), kr in r["keys"].items():
             field = desc_field(fmap, kr["first_desc"])
             if allowed:
@@ -604,8 +680,11 @@ def campaign(ctx, a, builds, root, exclusions, notes):
             c["problem"]["msg"] += " [seed %s, %s, field %s]" % (r["name"], c["desc"], desc_field(fmap, c["desc"]))
             found.append({"origin": "enum:%s:%s" % (r["name"], c["desc"]), "bytes": c["bytes"], "problems": [c["problem"]]})
         if r["samples"] and len(samples) < 5:
-            for s in r["samples"][:2]:
+            for s in r["samples"][:1]:
                 samples.append({"seed": r["name"], "input": s["desc"], "open_status": s["open_status"], "hex": s["hex"]})
+    for k, ps in per_seed.items():
+        ps["exhaustive_modulo_exclusions"] = bool(ps["domain"] is not None and ps["chunks"] == ps["chunks_complete"] and ps["visited"] == ps["domain"])
+        ps["exhaustive"] = bool(ps["exhaustive_modulo_exclusions"] and ps["skipped_excluded"] == 0)
     fexecs = 0
     fz = {"workers": nfz, "execs": [], "budget_hit": [], "restarts": [], "cov": [], "features": [], "corpus": []}
     for i, r in enumerate(fres):
